@@ -791,6 +791,15 @@ func c09Call2(c *Ctx) {
 		in := map[string]interface{}{"call": encs[i], "text": text}
 		r.hist(fmt.Sprintf("call2:wf=%v,map=%v,wild=%v,mods=%s", wf, k.isMap(), k.wildcard != nil, k.spelling))
 		r.count("call2:"+encs[i], len(k.binds) > 0 || k.wildcard != nil || k.spelling != "none")
+		for _, m := range k.mods {
+			if (m.id == "local" && k.local) || (m.id == "preflight" && k.preflight) || (m.id == "volatile" && k.volatile) {
+				// the compiler rejects the input (ConflictingModifiers); the formatter keeps the
+				// binding and drops the keyword, so its output compiles (reported, not a violation
+				// of the round trip: the model does the same, Props.C09.call2_near_misses (1))
+				r.hist("call2:keyword-and-binding-with-the-same-id")
+				break
+			}
+		}
 
 		// (a) the real parser on the model's text
 		rp := c09c2Dump(text)
